@@ -256,6 +256,9 @@ def _strip_ids(n):
     return c
 
 
+OBJ = "<object>"       # offset marker of _ptr_target: the pointer denotes a single object, not an array position
+
+
 def _ptr_target(init):
     """initialiser of a pointer alias -> (array expression, offset expression or None)"""
     e = _unc(init)
@@ -265,6 +268,8 @@ def _ptr_target(init):
         t = _unc(e["e"])
         if t is not None and t.get("k") == "Index":
             return t["b"], t["idx"]
+        if t is not None and t.get("k") in ("OpCall", "MCall", "Member", "Ref"):
+            return t, OBJ           # pointer to one object: *p is that object, p->m its member
         return None
     if e.get("k") == "Bin" and e.get("op") == "+":
         return e["lhs"], e["rhs"]
@@ -491,6 +496,8 @@ def resolve_aliases(fn, value_aliases=True, ref_aliases=True, ptr_aliases=True, 
             fn._byid = None
         else:
             base, off = _ptr_target(init)
+            if d in cursors and off is OBJ:
+                continue
             if d in cursors:
                 loop, iv, i0 = cursors[d]
                 step = {"k": "Ref", "n": iv["n"], "d": iv["d"], "dk": "local", "t": iv.get("t"), "l": iv.get("l")}
@@ -544,6 +551,26 @@ def _rewrite_ptr_use(fn, par, u, base, off):
     if p is None:
         return False
     extra = None
+    if off is OBJ:
+        if p.get("k") == "Un" and p.get("op") == "*" and p.get("e") is x:
+            keep = {k: p[k] for k in ("l",) if k in p}
+            c = _strip_ids(base)
+            p.clear()
+            p.update(c)
+            p.update(keep)
+            p["_ptr_alias"] = u.get("n")
+        elif p.get("k") == "Member" and p.get("b") is x and p.get("arrow"):
+            p["b"] = _strip_ids(base)
+            p["arrow"] = False
+        elif p.get("k") == "MCall" and p.get("obj") is x and p.get("arrow"):
+            p["obj"] = _strip_ids(base)
+            p["arrow"] = False
+        else:
+            return False
+        for y in walk(p):
+            for ch in children(y):
+                par[id(ch)] = y
+        return True
     if p.get("k") == "Bin" and p.get("op") in ("+",) and (p.get("lhs") is x or p.get("rhs") is x):
         # (p + i): look for the dereference around it
         extra = p["rhs"] if p.get("lhs") is x else p["lhs"]
